@@ -763,7 +763,9 @@ theorem h11_incomplete_rejected (cfg : Proto.H11.Cfg) (st : St) (hpc : st.pc = .
   have hd3 : H11M.Dead s3 := H11M.sendEom_dead _ _ h3 hd2
   refine ⟨{ st with lib := s3, pc := .idle }, ?_, ⟨hd3, rfl⟩, rfl⟩
   simp only [errHeaders, List.cons_append, List.nil_append] at h2
-  simp [onLibEv, hpc, hsw, loopTop, hw, onLibEvBody, hcur, h1, libSend, h2, h3, errHeaders]
+  -- the extracted guard of the ignoring branch needs a live stream (`self.stream is not None and …`): there is none here
+  have hign : ∀ s : St, errIgnored s = (s.cur.isSome && s.requestComplete) := errIgnored_eq (fun _ _ _ _ => rfl)
+  simp [onLibEv, hpc, hsw, loopTop, hw, onLibEvBody, hign, hcur, h1, libSend, h2, h3, errHeaders]
 
 /-- **`h11_incomplete_limit`, keeps waiting**: while h11 answers `NEED_DATA` (at most `L` bytes of the head buffered,
     `feed_waits`) the protocol writes nothing, starts nothing, closes nothing: the reader goes back to wait for bytes -/
